@@ -2,7 +2,12 @@
 
 package exec
 
-import "github.com/grailbio/bigslice/sliceio"
+import (
+	"time"
+
+	"github.com/grailbio/base/retry"
+	"github.com/grailbio/bigslice/sliceio"
+)
 
 // VerifShardReader opens the output of one root task (shard) of a result.
 func VerifShardReader(r *Result, shard int) sliceio.ReadCloser {
@@ -19,4 +24,11 @@ func VerifTaskStates(r *Result) []TaskState {
 		out[i] = t.State()
 	}
 	return out
+}
+
+// VerifSetRetryBackoff replaces the package's retryPolicy (remote partition
+// reads) by a back-off with the given parameters and the same shape, so that
+// fault-injection runs do not wait minutes of wall clock.
+func VerifSetRetryBackoff(initial, max time.Duration, factor float64, retries int) {
+	retryPolicy = retry.MaxRetries(retry.Backoff(initial, max, factor), retries)
 }
